@@ -843,3 +843,114 @@ func ruleGenesisInit(c *Ctx) {
 		c.bad("IsValidGenesisState", fd.Pos(), "validity predicate does not compare with MIN_GENESIS_TIME (<) and MIN_GENESIS_ACTIVE_VALIDATOR_COUNT (>=)")
 	}
 }
+
+func init() {
+	register(&Rule{Name: "assert.reach", Floor: 1,
+		Doc: "a comma-ok type assertion p.(I) on an interface-typed parameter must be able to succeed on every module call path that passes an interface-typed argument: if every concrete module type implementing the caller's static interface lacks I's methods (a wrapper embedding a narrower interface), the guarded branch is dead on that path although types implementing I exist",
+		Run: ruleAssertReach})
+}
+
+func ruleAssertReach(c *Ctx) {
+	// all concrete named types of the module (with pointer method sets)
+	var concrete []types.Type
+	for _, pk := range c.P.Pkgs {
+		sc := pk.Types.Scope()
+		for _, n := range sc.Names() {
+			tn, ok := sc.Lookup(n).(*types.TypeName)
+			if !ok || tn.IsAlias() {
+				continue
+			}
+			if _, isI := tn.Type().Underlying().(*types.Interface); isI {
+				continue
+			}
+			concrete = append(concrete, types.NewPointer(tn.Type()))
+		}
+	}
+	implementers := func(it *types.Interface) []types.Type {
+		var out []types.Type
+		for _, t := range concrete {
+			if types.Implements(t, it) {
+				out = append(out, t)
+			}
+		}
+		return out
+	}
+	t := newBLSTracer(c.P) // reuse: declarations and call sites
+	n := 0
+	c.P.funcDecls(func(pk *packages.Package, fd *ast.FuncDecl) {
+		info := pk.TypesInfo
+		fobj, _ := info.Defs[fd.Name].(*types.Func)
+		if fobj == nil || fd.Type.Params == nil {
+			return
+		}
+		ast.Inspect(fd.Body, func(nd ast.Node) bool {
+			as, ok := nd.(*ast.AssignStmt)
+			if !ok || len(as.Lhs) != 2 || len(as.Rhs) != 1 {
+				return true
+			}
+			ta, ok := ast.Unparen(as.Rhs[0]).(*ast.TypeAssertExpr)
+			if !ok || ta.Type == nil {
+				return true
+			}
+			it, ok := info.TypeOf(ta.Type).Underlying().(*types.Interface)
+			if !ok {
+				return true
+			}
+			id, ok := ast.Unparen(ta.X).(*ast.Ident)
+			if !ok {
+				return true
+			}
+			pobj := info.Uses[id]
+			pi := paramIndex(fd, info, pobj)
+			if pi < 0 {
+				return true
+			}
+			if _, isI := pobj.Type().Underlying().(*types.Interface); !isI {
+				return true
+			}
+			// re-bound before the assertion? (e.g. unwrapped)
+			if rhs, _ := lastDefBefore(info, fd, pobj, ta.Pos()); rhs != nil {
+				n++
+				c.ok(pkgShort(pk.Types)+"."+funcName(fd)+":"+types.ExprString(ta), ta.Pos(), "asserted value is re-bound before the assertion (%s)", truncate(types.ExprString(rhs), 40))
+				return true
+			}
+			implI := implementers(it)
+			for _, cs := range t.callers[fobj] {
+				args := cs.call.Args
+				if pi >= len(args) {
+					continue
+				}
+				at := cs.pk.TypesInfo.TypeOf(args[pi])
+				q, isI := at.Underlying().(*types.Interface)
+				if !isI {
+					continue // concrete argument: the assertion's outcome is that type's business
+				}
+				n++
+				key := pkgShort(cs.pk.Types) + "." + funcName(cs.fd) + "->" + qualName(fobj) + ":" + types.ExprString(ta)
+				implQ := implementers(q)
+				if len(implQ) == 0 {
+					c.ok(key, cs.call.Pos(), "no module type implements the caller's interface (external callers only)")
+					continue
+				}
+				some := false
+				for _, tq := range implQ {
+					if types.Implements(tq, it) {
+						some = true
+					}
+				}
+				if some || len(implI) == 0 {
+					c.ok(key, cs.call.Pos(), "some implementer of %s also implements %s", types.TypeString(at, types.RelativeTo(cs.pk.Types)), types.ExprString(ta.Type))
+					continue
+				}
+				var names []string
+				for _, tq := range implQ {
+					names = append(names, types.TypeString(tq, func(p *types.Package) string { return p.Name() }))
+				}
+				c.bad(key, cs.call.Pos(), "%s asserts %s, but on this call path the argument is a %s, and every module type implementing it (%s) lacks %s's methods (a wrapper's method set only has what its embedded interface declares): the guarded branch never runs here although %d module types implement %s",
+					funcName(fd), types.ExprString(ta), types.TypeString(at, func(p *types.Package) string { return p.Name() }), strings.Join(names, ", "), types.ExprString(ta.Type), len(implI), types.ExprString(ta.Type))
+			}
+			return true
+		})
+	})
+	c.stat("assertion_call_paths", n)
+}
